@@ -30,6 +30,8 @@ def bind_implementation() -> None:
             f"harness fault: pytestarch imported from {got}, expected {src}"
         )
     warnings.simplefilter("ignore", DeprecationWarning)
+    # pytestarch's @deprecated decorator resets the warning filters on every call
+    warnings.showwarning = lambda *a, **k: None
 
 
 bind_implementation()
